@@ -252,14 +252,28 @@ class ExcFlow:
         from .loader import walk_own as _walk_own
 
         vals = []
+        out: set[str] = set()
         for x in _walk_own(f.node):
             if isinstance(x, ast.Assign) and len(x.targets) == 1 and isinstance(x.targets[0], ast.Name) and x.targets[0].id == name:
                 vals.append(x.value)
             elif isinstance(x, ast.NamedExpr) and x.target.id == name:
                 vals.append(x.value)
-            elif isinstance(x, ast.Name) and isinstance(x.ctx, ast.Store) and x.id == name:
-                pass
-        out: set[str] = set()
+            elif isinstance(x, (ast.For, ast.AsyncFor)) and any(isinstance(t, ast.Name) and t.id == name for t in ast.walk(x.target)):
+                # `for code, exc in TABLE: ... raise exc(stage)`: the class-valued entries of the rows of a module-level table
+                rows = self._module_table(f, x.iter)
+                if rows is None:
+                    return set()
+                for row in rows:
+                    for cell in (row.elts if isinstance(row, (ast.Tuple, ast.List)) else [row]):
+                        dd = dotted(cell)
+                        rr = self.prog.resolve_dotted(f.module, dd) if dd else None
+                        rr = EXC_ALIASES.get(rr, rr) if rr else None
+                        if rr and (rr in self.prog.classes or self.prog.known_class(rr)):
+                            out.add(rr)
+                if not out:
+                    return set()
+        if out and not vals:
+            return out
         if not vals:
             return out
         for v in vals:
@@ -287,6 +301,26 @@ class ExcFlow:
                     return set()
                 out.add(rr)
         return out
+
+    def _module_table(self, f, it: ast.AST):
+        """Rows of a module-level tuple/list literal named by ``it`` (also `.items()` of a dict literal: values) or None."""
+        d = dotted(it)
+        if d is None and isinstance(it, ast.Call) and isinstance(it.func, ast.Attribute) and it.func.attr in ("items", "values") and not it.args:
+            d = dotted(it.func.value)
+        if d is None:
+            return None
+        r = self.prog.resolve_dotted(f.module, d)
+        parts = r.rsplit(".", 1)
+        if not (len(parts) == 2 and parts[0] in self.prog.modules and parts[1] in self.prog.modules[parts[0]].assigns):
+            return None
+        lits = self.prog.modules[parts[0]].assigns[parts[1]]
+        if len(lits) != 1:
+            return None
+        if isinstance(lits[0], (ast.Tuple, ast.List)):
+            return list(lits[0].elts)
+        if isinstance(lits[0], ast.Dict):
+            return list(lits[0].values)
+        return None
 
     def _reraised(self, cfg: CFG, handler_stack) -> set[str]:
         if not handler_stack:
